@@ -33,9 +33,9 @@ CHECKS = {
    text="Seeded workload with emphasis on taiko, converts and maps with breaks of up to 57 minutes, executed under all four feature combinations; logs must match call by call (numerically: -0.0 == 0.0).",
    note="Equality is numeric equality of every reported field as the property states; the four binaries are checked to report the feature set they were built with."),
  "C11": dict(engine="E3 Miri (miri/ mscen) + E1 native with SimAlloc poisoning (sim c11s, c11d, c15, c02)", category="exploration", design_ref="5.9",
-   technique="deterministic simulation under a memory monitor: seeded operation histories on the strain list vs a Vec model, on gradual calculators (moves, restarts, early drops, thread hops) and on the decoder with malformed slider paths through byte-wise readers, executed natively with allocator junk/poison and under Miri (Tree Borrows), whose seed fixes schedule and addresses",
+   technique="deterministic simulation under a memory monitor: seeded operation histories on the strain list vs a Vec model, on gradual calculators (moves, restarts, early drops, thread hops) and on the decoder with malformed slider paths through byte-wise readers, executed natively with allocator junk/poison and under Miri (Tree Borrows and Stacked Borrows alternating), whose seed fixes schedule and addresses",
    text="Miri checks every access on small cases (hundreds per run); native runs cover hundreds of thousands of full-size histories where a stale read surfaces as a wrong value, a panic or an abort.",
-   note="Trusts Miri's Tree Borrows model (Stacked Borrows rejects the self-referential OsuGradualDifficulty on move, which is not an invalid access; see DESIGN E3). Needs the verif-hook re-export of StrainsVec."),
+   note="Trusts Miri's aliasing models (both Tree Borrows and Stacked Borrows are run; both are experimental) and -Zmiri-deterministic-floats. Needs the verif-hook re-export of StrainsVec."),
  "C15": dict(engine="E1 native history simulator (sim c15)", category="exploration", design_ref="5.4",
    technique="deterministic simulation: seeded call histories (next, nth(k) incl. beyond the end, len, size_hint, std adaptors, crash+restart, moves) against a sequence model built from plain next() on a twin",
    text="Seeded search over iterator-protocol histories against a vector-and-cursor model; includes exhaustion probes after every history.",
